@@ -166,6 +166,26 @@ class FragGen:
                 g = " "   # `x:y`, `x:1`, `x:./p.nix`, `x:rec{}` … would be one uri token
         return s + g + b
 
+    def unary(self, depth: int) -> str:
+        """`!` / `-` GAP OPERAND; the operand an application-level expression"""
+        op = self.rng.choice(["!", "!", "-"])
+        r = self.rng.random()
+        if r < 0.08:
+            g = self._cmt_run(GAPS)
+        else:
+            g = self.rng.choice(["", "", "", "", " ", " ", "\n  "])
+        if depth <= 0 or self.rng.random() < 0.5:
+            b = self.leaf(depth)
+        elif self.rng.random() < 0.5:
+            b = self.paren(depth)
+        else:
+            b = self.app(depth)
+        if op == "-" and (b[0].isdigit() or b[0] in "-.>") and g == "":
+            g = " "   # `-1`, `--x`, `->`: keep the operator a token of its own
+        if g.endswith("*/") and b[0] in "./~<":
+            g += " "
+        return op + g + b
+
     def select(self, depth: int) -> str:
         """BASE g1 `.` gd a₁.a₂.….aₙ; BASE a single token, or (depth > 0) a parenthesis / list / set"""
         self.sels += 1
@@ -223,6 +243,9 @@ class FragGen:
             # a lambda reaches as far right as it can, like `with` / `assert`: bare only where nothing may
             # follow it but a closing token
             return self.lam(depth) if ctx in ("top", "value", "paren", "body") else "(" + self.lam(depth) + ")"
+        if depth > 0 and self.rng.random() < 0.07:
+            # a unary operator binds looser than application and select
+            return self.unary(depth - 1) if ctx in ("top", "value", "paren", "head", "body") else "(" + self.unary(depth - 1) + ")"
         r = self.rng.random()
         if depth <= 0 or r < 0.2:
             return self.leaf(depth)
